@@ -164,6 +164,10 @@ DoAc(nac, ng, no, a, n, x, y, z) ==
   /\ g' = ng /\ o' = no /\ lab' = L(a, n, x, y, z) /\ UNCHANGED cfg
 
 B(b) == IF b THEN 1 ELSE 0
+\* tolerance of unlogged lock acquisitions in the TRACE specification only (overridden there), see MaySkip / MayProceed
+RaceTolerant == FALSE
+CallPCs == {"up.call", "co.call", "er.call", "hb.call", "cs.call"}
+LatePc(p) == p \o "~"
 Inst0(a) == a[2]                            \* instance of a source / start actor
 Free(m) == m = NoActor
 
@@ -303,7 +307,11 @@ TdNext(a) ==
             Do(a, [ac[a] EXCEPT !.pc = "td.close", !.cur = s], g, o, "sub.close.begin", s, 0, 0)
      ELSE \E i \in ac[a].kq :
             LET kq == ac[a].kq \ {i} IN
-            Do(a, [ac[a] EXCEPT !.pc = TdPc({}, kq, ac[a].ret), !.kq = kq], [g EXCEPT !.tctx[i] = TRUE], o, "trig.cancel", 0, 0, 0)
+            DoAc([x \in Actors |-> IF x = a THEN [ac[a] EXCEPT !.pc = TdPc({}, kq, ac[a].ret), !.kq = kq]
+                                   ELSE IF RaceTolerant /\ x[1] \in {"s", "d"} /\ x[2] = i /\ ac[x].pc \in CallPCs /\ Free(g.updMu[i])
+                                        THEN [ac[x] EXCEPT !.pc = LatePc(@)]
+                                   ELSE ac[x]],
+                 [g EXCEPT !.tctx[i] = TRUE], o, a, "trig.cancel", 0, 0, 0)
 
 \* subscriptionState.done(): close(completed) [writeMu]
 TdClose(a) == LET s == ac[a].cur  cq == ac[a].cq \ {s} IN
@@ -359,16 +367,22 @@ Target(i) == IF FixUpdater THEN i ELSE g.reg[Key(i)]
 \* cancel() and the trig.cancel record that follows it are two steps of the cancelling goroutine: an updater that was blocked and
 \* got unblocked at the same time may already see the cancelled context although the record is not in the log yet. Only the trace
 \* specification tolerates this (RaceTolerant is overridden there); the model and the generator keep the atomic reading.
-RaceTolerant == FALSE
 CancelPending(i) == \E b \in Actors : ac[b].pc = "td" /\ ac[b].cq = {} /\ i \in ac[b].kq
 MaySkip(i) == Skip(i) \/ (RaceTolerant /\ CancelPending(i))
+\* The mirror image: an updater goroutine that was BLOCKED on upd.mu runs as soon as the holder leaves, beside whatever actor is scheduled;
+\* its lock acquisition and its `done || ctx.Err()` test are not logged. If the trigger's cancel is recorded while such an actor has issued
+\* its call and upd.mu is free, the actor may already be past the test: from then on it is "late" (pc marked with ~) and both outcomes of
+\* the test are accepted for this one call. Trace specification only.
+AtCall(a, p) == ac[a].pc = p \/ ac[a].pc = LatePc(p)
+Late(a) == ac[a].pc \in {LatePc(p) : p \in CallPCs}
+MayProceed(a, i) == ~Skip(i) \/ (Late(a) /\ ~g.udone[i])
 
 \* CloseSubscription: lock upd.mu, done/ctx check, UnsubscribeSubscription(id) with upd.mu held
 CsCall(a) == LET i == Inst0(a) IN
-  /\ ac[a].pc = "cs.call" /\ Free(g.updMu[i])
+  /\ AtCall(a, "cs.call") /\ Free(g.updMu[i])
   /\ \/ /\ MaySkip(i)
         /\ Do(a, [ac[a] EXCEPT !.pc = ac[a].nx], g, o, "upd.leave", Key(i), 0, 0)
-     \/ /\ ~Skip(i)
+     \/ /\ MayProceed(a, i)
         /\ Do(a, [ac[a] EXCEPT !.pc = "un.begin", !.ret = "s.ret"], [g EXCEPT !.updMu[i] = a], o, "sub.unsub.begin", ac[a].cur, 0, 0)
 
 \* the method returns: unlock upd.mu (the upd.leave hook is deferred after the deferred Unlock, i.e. runs inside the lock)
@@ -379,10 +393,10 @@ SRet(a) == LET i == Inst0(a) IN
 
 \* Update -> handleTriggerUpdate: getTrigger (by id), filterSubscriptions [trig.mu], wg.Go per subscriber
 UpCall(a) == LET i == Inst0(a)  k == Key(i)  j == g.reg[k]  e == ac[a].e IN
-  /\ ac[a].pc = "up.call" /\ Free(g.updMu[i])
+  /\ AtCall(a, "up.call") /\ Free(g.updMu[i])
   /\ \/ /\ MaySkip(i) \/ (~FixUpdater /\ j = 0)
         /\ Do(a, [ac[a] EXCEPT !.pc = ac[a].nx], g, o, "upd.leave", Key(i), 0, 0)
-     \/ /\ ~(Skip(i) \/ (~FixUpdater /\ j = 0))
+     \/ /\ MayProceed(a, i) /\ ~(~FixUpdater /\ j = 0)
         /\ LET cand == {s \in (IF ac[a].cur = 0 THEN g.isubs[Target(i)] ELSE {ac[a].cur} \cap g.isubs[Target(i)]) : ~g.cctx[s]}
                t == {s \in cand : Pass(s, e)}
                fe == {s \in cand : FErr(s)} IN
@@ -431,10 +445,10 @@ CeNext(a, todo, gg, oo, kind) == LET i == Inst0(a)  live == {s \in todo : ~gg.re
             IF kind = "co" THEN "sub.complete.checked" ELSE "sub.error.checked", s, 0, 0)
 
 CeCall(a, kind) == LET i == Inst0(a)  k == Key(i)  j == g.reg[k] IN
-  /\ ac[a].pc = kind \o ".call" /\ Free(g.updMu[i])
+  /\ AtCall(a, kind \o ".call") /\ Free(g.updMu[i])
   /\ \/ /\ MaySkip(i) \/ (~FixUpdater /\ j = 0)
         /\ Do(a, [ac[a] EXCEPT !.pc = ac[a].nx], g, o, "upd.leave", Key(i), 0, 0)
-     \/ /\ ~(Skip(i) \/ (~FixUpdater /\ j = 0))
+     \/ /\ MayProceed(a, i) /\ ~(~FixUpdater /\ j = 0)
         /\ CeNext(a, g.isubs[Target(i)], g, Stale(o, IF kind = "co" THEN "complete" ELSE "error", i, Target(i)), kind)
 
 \* complete() / error(): writer.Complete() / writer.Error() [writeMu]
@@ -457,10 +471,10 @@ HbNext(a, todo0, gg, oo) == LET i == Inst0(a)  todo == {s \in todo0 : ~gg.cctx[s
          Do(a, [ac[a] EXCEPT !.pc = "hb.chk", !.cur = s, !.todo = todo \ {s}], [gg EXCEPT !.updMu[i] = a], oo, "sub.hb.begin", s, 0, 0)
 
 HbCall(a) == LET i == Inst0(a)  k == Key(i)  j == g.reg[k] IN
-  /\ ac[a].pc = "hb.call" /\ Free(g.updMu[i])
+  /\ AtCall(a, "hb.call") /\ Free(g.updMu[i])
   /\ \/ /\ MaySkip(i) \/ (~FixUpdater /\ j = 0)
         /\ Do(a, [ac[a] EXCEPT !.pc = ac[a].nx], g, o, "upd.leave", Key(i), 0, 0)
-     \/ /\ ~(Skip(i) \/ (~FixUpdater /\ j = 0))
+     \/ /\ MayProceed(a, i) /\ ~(~FixUpdater /\ j = 0)
         /\ HbNext(a, {s \in g.isubs[Target(i)] : ~g.removed[s] /\ ~g.lastw[s]}, g, Stale(o, "heartbeat", i, Target(i)))
 
 \* sendHeartbeat [writeMu, re-checks removed]; a failing Heartbeat() unsubscribes
